@@ -30,7 +30,9 @@ def classify_collection_helpers(F):
         if not on_matches:
             continue
         sorts = find_hir(h["body"], lambda x: x.get("k") == "MethodCall" and x.get("method", "").startswith("sort"))
-        uses_output_values = find_hir(h["body"], lambda x: x.get("k") == "Field" and x.get("name") == "output_values")
+        # the comparator may be a closure in the helper or a private method it calls
+        bodies = [h["body"]] + [F.hir[c]["body"] for c in called_methods(F, h, 2)]
+        uses_output_values = [x for b2 in bodies for x in find_hir(b2, lambda x: x.get("k") == "Field" and x.get("name") == "output_values")]
         rev = find_hir(h["body"], lambda x: x.get("k") == "MethodCall" and x.get("method") in ("rev", "reverse"))
         if sorts and uses_output_values and not rev:
             out[n] = "prioritized"
@@ -38,6 +40,20 @@ def classify_collection_helpers(F):
             out[n] = "rule-order"
         else:
             out[n] = "other"
+    return out
+
+
+def called_methods(F, h, depth):
+    """EvaluatedDecisionTable methods called (transitively, up to depth) from a HIR function"""
+    out, work = [], [(h, 0)]
+    while work:
+        hh, d = work.pop()
+        for c, _ in find_hir(hh["body"], lambda x: x.get("k") in ("MethodCall", "Call") and (x.get("callee") or "").startswith(EDT)):
+            cal = c["callee"]
+            if cal in F.hir and cal not in out and F.hir[cal] is not h:
+                out.append(cal)
+                if d + 1 < depth:
+                    work.append((F.hir[cal], d + 1))
     return out
 
 
@@ -302,15 +318,17 @@ def run(F, rep, tier):
         rep.missing_anchor(r5, "prioritized match-collection helper")
     for n in pri:
         h = F.hir[n]
-        fl = hirflow.Flow(h)
-        inloop = [(d, cond, line) for d, cond, line in fl.returns if any(isinstance(c[0], tuple) and c[0] and c[0][0] == "loop-enter" for c in cond)]
-        # the value of the comparator when the loop runs to its end: tail expression of the closure (or of a comparator function)
-        tails = []
-        for cl, _ in find_hir(h["body"], lambda x: x.get("k") == "Closure"):
-            body = strip(cl["body"])
-            t = strip(body["b"]["e"]) if body.get("k") == "Block" and body["b"].get("e") is not None else body
-            if t.get("k") == "Path" and "Ordering::" in (t.get("path") or ""):
-                tails.append((("ctor", t["path"]), (), t.get("l")))
+        # comparator candidates: closures of the helper and the private methods it calls; the comparator is the one with a component loop
+        units = [{"params": c.get("params", []), "body": c["body"]} for c, _ in find_hir(h["body"], lambda x: x.get("k") == "Closure")]
+        units += [F.hir[c] for c in called_methods(F, h, 2)]
+        inloop, tails = [], []
+        for u in units:
+            fl = hirflow.Flow(u)
+            il = [(d, cond, line) for d, cond, line in fl.returns if any(isinstance(c[0], tuple) and c[0] and c[0][0] == "loop-enter" for c in cond)]
+            if not il:
+                continue
+            inloop += il
+            tails += [(d, cond, line) for d, cond, line in fl.returns if (d, cond, line) not in il and d and "Ordering::" in repr(d)]
         key = "priority-comparator:%s" % n.split("::")[-1]
         probs = []
         if not inloop:
